@@ -36,6 +36,9 @@ type Scenario struct {
 	// history with the maintenance jobs removed; if it disappears, the jobs changed
 	// what clients observe and the hit is a violation of this scenario's property
 	Metamorphic bool
+	// MetamorphicReverse: also the other direction (a disagreement on a job-free
+	// history that goes away once the jobs have run)
+	MetamorphicReverse bool
 	// AlsoOwn: rules this scenario's property owns here in addition to its own
 	// (the scenario is built so that these rules can only fire for its reason,
 	// e.g. "not offered" in a scenario about retention)
@@ -681,6 +684,41 @@ func Explore(sc *Scenario, exe string, workerArgs []string, nWorkers int, deadli
 					continue
 				}
 				plain = append(plain, l)
+			}
+			if !hadJob && sc.MetamorphicReverse {
+				// the other direction: the disagreement shows on a history WITHOUT jobs; if it
+				// goes away when the scenario's jobs run (twice over) just before the last
+				// request, what the client observes depends on whether they ran
+				var withJobs []string
+				withJobs = append(withJobs, fv.Path[:len(fv.Path)-1]...)
+				for round := 0; round < 2; round++ {
+					for _, op := range sc.Alphabet {
+						if op.K == "job" {
+							withJobs = append(withJobs, op.Label())
+						}
+					}
+				}
+				withJobs = append(withJobs, fv.Path[len(fv.Path)-1])
+				res, err := procs[0].do(Task{Scen: sc.ID, Path: withJobs, PathOnly: true})
+				if err != nil || res.Err != "" {
+					continue
+				}
+				still := false
+				for _, s := range res.Succ {
+					for _, h := range s.Hits {
+						if h.Rule == fv.Hit.Rule {
+							still = true
+						}
+					}
+				}
+				if !still {
+					h := fv.Hit
+					h.Props = append(append([]string{}, h.Props...), sc.Prop)
+					h.Text = "only while the maintenance jobs have NOT run (the same history with them spliced in before the last request has no such disagreement): " + h.Text
+					viol = append(viol, Violation{Scen: sc.ID, Path: fv.Path, Hit: h})
+					st.Promoted++
+				}
+				continue
 			}
 			if !hadJob {
 				continue
